@@ -314,6 +314,56 @@ func scenarios() []scenario {
 				return strings.Join(ks, ";")
 			}
 	}})
+	out = append(out, scenario{"FF6: 2 x For sharing one ForOptions whose TypeSchemas has more entries than the default table", func() ([]func() string, func() string) {
+		mk := func(n string) *jsonschema.Schema {
+			return &jsonschema.Schema{Type: "object", Properties: map[string]*jsonschema.Schema{"o_" + n: {Type: "integer"}}}
+		}
+		ts := map[reflect.Type]*jsonschema.Schema{
+			reflect.TypeOf(gen.Inner{}): mk("inner"), reflect.TypeOf(gen.Inner2{}): mk("inner2"), reflect.TypeOf(gen.Base{}): mk("base"), reflect.TypeOf(gen.NamedStruct{}): mk("named"),
+			reflect.TypeOf(gen.MyInt(0)): {Type: "integer"}, reflect.TypeOf(gen.MyStr("")): {Type: "string"}, reflect.TypeOf(gen.EmptyS{}): mk("empty"), reflect.TypeOf(gen.Described{}): mk("described"),
+		}
+		opts := &jsonschema.ForOptions{TypeSchemas: ts}
+		f := func(t reflect.Type) func() string {
+			return func() string {
+				s, err := jsonschema.ForType(t, opts)
+				if err != nil {
+					return "error " + err.Error()
+				}
+				b, _ := json.Marshal(s)
+				return string(b)
+			}
+		}
+		return []func() string{f(reflect.TypeOf(gen.Twice{})), f(reflect.TypeOf(gen.Marsh{}))},
+			func() string {
+				var ks []string
+				for k, v := range ts {
+					ks = append(ks, k.String()+digest(v))
+				}
+				sort.Strings(ks)
+				return strings.Join(ks, ";")
+			}
+	}})
+	out = append(out, scenario{"MIX: 3 x Validate on one Resolved whose root (2020-12) refers to a Loader document that declares draft-07", func() ([]func() string, func() string) {
+		s := cachedSchema(`{"$id":"http://h/root.json","prefixItems":[{"type":"integer"}],"properties":{"old":{"$ref":"old.json"},"n":{"type":"integer"}},"dependentRequired":{"n":["old"]},"unevaluatedProperties":false,"unevaluatedItems":false}`)
+		load := func(u *url.URL) (*jsonschema.Schema, error) {
+			var d jsonschema.Schema
+			if err := json.Unmarshal([]byte(`{"$schema":"http://json-schema.org/draft-07/schema#","items":[{"type":"string"}],"additionalItems":false,"dependencies":{"a":["b"]},"properties":{"a":{"items":[{"type":"integer"}]}}}`), &d); err != nil {
+				return nil, err
+			}
+			return &d, nil
+		}
+		rs, err := s.Resolve(&jsonschema.ResolveOptions{Loader: load})
+		if err != nil {
+			panic(err)
+		}
+		is := []any{decode(`{"old":{"a":[1,"x"],"b":1},"n":1}`), decode(`["x"]`), decode(`{"n":1}`), decode(`{"old":["s",1]}`)}
+		var bs []func() string
+		for _, in := range is[:3] {
+			in := in
+			bs = append(bs, func() string { return verdict(rs, in) + verdict(rs, is[3]) })
+		}
+		return bs, func() string { return digest(s) }
+	}})
 	out = append(out, scenario{"VV-cold: Resolve once, then the first two Validate/ApplyDefaults calls on the cold Resolved", func() ([]func() string, func() string) {
 		s, rs := mustResolve(`{"required":["r1","r2"],"properties":{"r1":{"default":1},"r2":{"default":2},"o":{"default":3},"p":{"pattern":"^a","uniqueItems":true}},"patternProperties":{"^q":{"required":["z"]}}}`, nil)
 		var a, b any = decode(`{}`), decode(`{"o":0}`)
